@@ -8,7 +8,15 @@ RULE = ("1500 (quick) / 12000 (thorough) hostile answers derived from genuine me
 
 def run(v, tier, seed, replay):
     vlib.coq_stage(v, "C12")
-    s, res = common.harness(v, "C12", "core", "hostile", tier, seed)
+    try:
+        s, res = common.harness(v, "C12", "core", "hostile", tier, seed)
+    except common.HarnessCrash as e:
+        import re
+        m = re.search(r"fatal error: ([^\n]*)", str(e))
+        v.violation("C12:process-death:" + (m.group(1) if m else "unknown"), "decoding/verifying a hostile answer killed the process (not recoverable): %s" % (m.group(0) if m else str(e)[:300]),
+                    dict(kind="process-death", input=e.last_input, seed=seed, tier=tier))
+        v.coverage.update(evaluations=1, distinct_nontrivial=1, rule=RULE, samples=[dict(crashing_input=e.last_input[:500])])
+        return
     try:
         common.absorb(v, res, RULE)
         v.violations = [x for x in v.violations if x["signature"].startswith("C12")]
